@@ -537,7 +537,9 @@ public:
 
     Matrix eigenvectors()
     {
-        return m_evectors;
+        // The approximate eigenvectors are the columns of the iterate block X (n x nev);
+        // m_evectors only holds the coefficients of the last Rayleigh-Ritz step
+        return Matrix(X);
     }
 
     Matrix residuals()
